@@ -21,3 +21,19 @@ def json_equal(a, b):
     if isinstance(a, dict) and isinstance(b, dict):
         return len(a) == len(b) and all(k in b and json_equal(v, b[k]) for k, v in a.items())
     return False
+
+
+import re as _re
+
+_CANON_INT = _re.compile(r"0|-?[1-9][0-9]*")
+_CANON_NAT = _re.compile(r"0|[1-9][0-9]*")
+
+
+def canonical_int(s):
+    """`s` is the canonical decimal spelling of an integer: str(int(s)) == s (ASCII digits)."""
+    return isinstance(s, str) and _CANON_INT.fullmatch(s) is not None
+
+
+def canonical_nat(s):
+    """RFC 6901 section 4 array-index: "0" or a digit string without leading zero."""
+    return isinstance(s, str) and _CANON_NAT.fullmatch(s) is not None
